@@ -204,6 +204,16 @@ func cflowOp(c *Ctx, op string) {
 	c.Emit(op, ans, true)
 }
 
+// pickyCodec refuses to marshal messages that start with 0xBD.
+type pickyCodec struct{ rawCodec }
+
+func (p pickyCodec) Marshal(msg any) ([]byte, error) {
+	if b, ok := msg.(*[]byte); ok && len(*b) > 0 && (*b)[0] == 0xBD {
+		return nil, errors.New("codec: this message cannot be encoded")
+	}
+	return p.rawCodec.Marshal(msg)
+}
+
 // closeTrackingBody counts Close calls on a body whose reads eventually fail.
 type closeTrackingBody struct {
 	failingBody
@@ -1694,6 +1704,122 @@ func streamLife(c *Ctx) {
 			cerr := s.CloseResponse()
 			return fmt.Sprintf("CloseResponse=%s body closed %d time(s)", codeName(cerr), fb.closed), fb.closed >= 1
 		}})
+		// L7 (round 9, C14-mk): the handler's own outcome is an error coded canceled or
+		// deadline_exceeded (a downstream timeout, say) while the client's context is alive: closing
+		// the response is what it always is - nil, and the HTTP response body closed.
+		for _, kind := range []string{"server", "bidi"} {
+			for _, code := range []connect.Code{connect.CodeDeadlineExceeded, connect.CodeCanceled} {
+				kind, code := kind, code
+				scs = append(scs, scenario{"life-body-not-closed", fmt.Sprintf("handler ends a %s call with %s (client context alive), then CloseResponse, %s", kind, code, proto), func() (string, bool) {
+					fail := func() error { return connect.NewError(code, errors.New("downstream gave up")) }
+					var h http.Handler
+					if kind == "server" {
+						h = connect.NewServerStreamHandler("/s/m", func(ctx context.Context, r *connect.Request[[]byte], s *connect.ServerStream[[]byte]) error {
+							_ = s.Send(&[]byte{1})
+							return fail()
+						}, connect.WithCodec(rawCodec{"raw"}))
+					} else {
+						h = connect.NewBidiStreamHandler("/s/m", func(ctx context.Context, s *connect.BidiStream[[]byte, []byte]) error {
+							_, _ = s.Receive()
+							_ = s.Send(&[]byte{1})
+							return fail()
+						}, connect.WithCodec(rawCodec{"raw"}))
+					}
+					srv := startServer(h, true)
+					defer srv.Close()
+					cc := &countingClient{inner: srv.Client()}
+					cl := connect.NewClient[[]byte, []byte](cc, srv.URL+"/s/m", protoOpts(proto)...)
+					var closeErr, outcome error
+					if kind == "server" {
+						st, err := cl.CallServerStream(context.Background(), connect.NewRequest(&[]byte{1}))
+						if err != nil {
+							return "call: " + err.Error(), false
+						}
+						for st.Receive() {
+						}
+						outcome = st.Err()
+						closeErr = st.Close()
+					} else {
+						st := cl.CallBidiStream(context.Background())
+						_ = st.Send(&[]byte{1})
+						_, _ = st.Receive()
+						_, outcome = st.Receive()
+						_ = st.CloseRequest()
+						closeErr = st.CloseResponse()
+					}
+					closes := atomic.LoadInt32(&cc.closes)
+					return fmt.Sprintf("outcome=%s close=%s body closed %d time(s)", codeName(outcome), codeName(closeErr), closes), codeName(outcome) == code.String() && closeErr == nil && closes >= 1
+				}})
+			}
+		}
+		// L8 (round 9, C14-ml): one Send in the middle of a healthy stream fails on the client
+		// (the codec refuses that message; nothing goes on the wire). The call goes on: later Sends
+		// succeed, the handler sees the other messages and then the end of the request, and
+		// Receive reports the handler's outcome.
+		for _, kind := range []string{"client", "bidi"} {
+			kind := kind
+			scs = append(scs, scenario{"life-send-refused-locally", "Send ok, Send refused by the codec, Send ok, CloseRequest, " + kind + " " + proto, func() (string, bool) {
+				var seen [][]byte
+				var end error
+				var mu sync.Mutex
+				note := func(m []byte) { mu.Lock(); seen = append(seen, append([]byte{}, m...)); mu.Unlock() }
+				var h http.Handler
+				if kind == "client" {
+					h = connect.NewClientStreamHandler("/s/m", func(ctx context.Context, s *connect.ClientStream[[]byte]) (*connect.Response[[]byte], error) {
+						for s.Receive() {
+							note(*s.Msg())
+						}
+						end = s.Err()
+						n := byte(len(seen))
+						return connect.NewResponse(&[]byte{n}), nil
+					}, connect.WithCodec(rawCodec{"raw"}))
+				} else {
+					h = connect.NewBidiStreamHandler("/s/m", func(ctx context.Context, s *connect.BidiStream[[]byte, []byte]) error {
+						for {
+							m, err := s.Receive()
+							if err != nil {
+								if !errors.Is(err, io.EOF) {
+									end = err
+								}
+								break
+							}
+							note(*m)
+						}
+						n := byte(len(seen))
+						return s.Send(&[]byte{n})
+					}, connect.WithCodec(rawCodec{"raw"}))
+				}
+				srv := startServer(h, true)
+				defer srv.Close()
+				cl := connect.NewClient[[]byte, []byte](srv.Client(), srv.URL+"/s/m", append(protoOpts(proto), connect.WithCodec(pickyCodec{rawCodec{"raw"}}))...)
+				var e1, e2, e3, rerr error
+				var res []byte
+				if kind == "client" {
+					st := cl.CallClientStream(context.Background())
+					e1, e2, e3 = st.Send(&[]byte{1}), st.Send(&[]byte{0xBD}), st.Send(&[]byte{3})
+					r, err := st.CloseAndReceive()
+					rerr = err
+					if err == nil {
+						res = *r.Msg
+					}
+				} else {
+					st := cl.CallBidiStream(context.Background())
+					e1, e2, e3 = st.Send(&[]byte{1}), st.Send(&[]byte{0xBD}), st.Send(&[]byte{3})
+					_ = st.CloseRequest()
+					m, err := st.Receive()
+					rerr = err
+					if err == nil {
+						res = *m
+					}
+					_ = st.CloseResponse()
+				}
+				mu.Lock()
+				defer mu.Unlock()
+				got := fmt.Sprintf("sends=%s,%s,%s handler saw %x end=%s result=%x err=%s", codeName(e1), codeName(e2), codeName(e3), seen, codeName(end), res, codeName(rerr))
+				ok := e1 == nil && e2 != nil && e3 == nil && len(seen) == 2 && end == nil && rerr == nil && len(res) == 1 && res[0] == 2
+				return got, ok
+			}})
+		}
 		// L1b: small Sends after the handler finished eventually fail with an EOF-wrapping error
 		scs = append(scs, scenario{"life-send-after-finish", "small Sends after the handler finished, " + proto, func() (string, bool) {
 			h := connect.NewBidiStreamHandler("/s/m", func(ctx context.Context, s *connect.BidiStream[[]byte, []byte]) error {
